@@ -109,10 +109,27 @@ func unNot(c ssa.Value, v bool) (ssa.Value, bool) {
 	for {
 		u, ok := c.(*ssa.UnOp)
 		if !ok || u.Op != token.NOT {
-			return c, v
+			break
 		}
 		c, v = u.X, !v
 	}
+	// `p == nil` / `p != nil` where p is the result of a helper that answers nil exactly for a null cell: the test
+	// is the null test of that cell; it is represented by (p, `p is nil`)
+	if cmp, ok := c.(*ssa.BinOp); ok && (cmp.Op == token.EQL || cmp.Op == token.NEQ) {
+		for _, side := range [][2]ssa.Value{{cmp.X, cmp.Y}, {cmp.Y, cmp.X}} {
+			cst, isC := side[1].(*ssa.Const)
+			call, isCall := side[0].(*ssa.Call)
+			if isC && cst.IsNil() && isCall {
+				if callee := call.Call.StaticCallee(); callee != nil && isNilIffNullHelper(callee) {
+					if cmp.Op == token.NEQ {
+						v = !v
+					}
+					return call, v
+				}
+			}
+		}
+	}
+	return c, v
 }
 
 func isConstBool(v ssa.Value, want bool) bool {
